@@ -137,6 +137,12 @@ def inject_fault(rng, d, kind):
             return None
         d["procs"] = d["procs"][1:] + ["sysenv"]
         d["flows"], d["stocks"] = [], [dict(s, process=None) for s in d["stocks"]]
+    elif kind == "almost sysenv":
+        # a first process whose name merely resembles the system environment's (part of it, another case, a blank), in place of it
+        # or in front of it
+        near = rng.choice(["env", "sys", "sysen", "s", "", "Sysenv", "SYSENV", "sysenv ", " sysenv", "sysenv2", "ysenv"])
+        d["procs"] = [near] + (d["procs"][1:] if rng.random() < 0.5 else d["procs"])
+        d["flows"], d["stocks"] = [], [dict(s, process=None) for s in d["stocks"]]
     elif kind == "no sysenv":
         d["procs"] = [p for p in d["procs"] if p != "sysenv"] or ["only"]
         d["flows"], d["stocks"] = [], [dict(s, process=None) for s in d["stocks"]]
@@ -144,7 +150,7 @@ def inject_fault(rng, d, kind):
 
 
 FAULTS = ["undefined dim", "undefined process", "undefined stock process", "missing lifetime", "superfluous lifetime", "bad solver",
-          "time not first", "sysenv not first", "no sysenv"]
+          "time not first", "sysenv not first", "no sysenv", "almost sysenv"]
 
 
 def generate(tier, rng):
